@@ -142,7 +142,7 @@ def main():
                      'kind_free_text': 'hand-written explicit-state explorer for Python: exhaustive scope enumeration (with basis closure for linear maps), '
                                        'level-synchronous BFS over operation histories on real objects with canonical-state deduplication, and fault (truncation) enumeration; 16 worker processes'}],
         'checks': checks,
-        'notes': 'All checks import prysm from /repo\'s working tree in a fresh process (pure Python: nothing to build). known_findings.json lists recorded/fixed defects (87 fix: commits in /repo, 1 known finding); replays/ is written at run time; seeded/ holds the independently seeded changes used to validate detection (DESIGN.md 7). Quick tier: <= 40 s per check on 16 idle cores; thorough: <= 9 min (C01, C17, C08 are the long ones).',
+        'notes': 'All checks import prysm from /repo\'s working tree in a fresh process (pure Python: nothing to build). known_findings.json lists recorded/fixed defects (89 fix: commits in /repo, 1 known finding); replays/ is written at run time; seeded/ holds the independently seeded changes used to validate detection (DESIGN.md 7). Quick tier: <= 40 s per check on 16 idle cores; thorough: <= 9 min (C01, C17, C08 are the long ones).',
         'not_applicable': na,
     }
     with open(os.path.join(ROOT, 'MANIFEST.json'), 'w') as f:
